@@ -436,7 +436,12 @@ def random_case(draw):
             a["arg"] = {"dict": [[c, draw(st.lists(funcs, min_size=1, max_size=2, unique=True))] for c in cs]}
         else:
             # distinct (column, function) pairs: dask explicitly refuses duplicates ("conflicting aggregation functions")
-            pairs = draw(st.lists(st.tuples(st.sampled_from(pool), funcs), min_size=1, max_size=3, unique=True))
+            pairs = draw(st.lists(st.tuples(st.sampled_from(pool), funcs), min_size=1, max_size=4, unique=True))
+            if len(pool) >= 2 and draw(st.booleans()):
+                # keywords that INTERLEAVE the input columns (a, b, a): output order != grouped-by-column order
+                c1, c2 = draw(st.lists(st.sampled_from(pool), min_size=2, max_size=2, unique=True))
+                f1, f3 = draw(st.lists(funcs, min_size=2, max_size=2, unique=True))
+                pairs = [(c1, f1), (c2, draw(funcs)), (c1, f3)]
             a["arg"] = [[f"out{i}", [c, f]] for i, (c, f) in enumerate(pairs)]
             a["named"] = True
     elif kind == "cum":
